@@ -20,6 +20,7 @@
 package main
 
 import (
+	"encoding/hex"
 	"encoding/json"
 	"flag"
 	"fmt"
@@ -32,8 +33,10 @@ import (
 	"com.tuntun.rangers/node/src/common"
 	"com.tuntun.rangers/node/src/eth_tx"
 	"com.tuntun.rangers/node/src/middleware/types"
+	"com.tuntun.rangers/node/src/storage/account"
 	"com.tuntun.rangers/node/src/utility"
 	"verif/harness/internal/codecutil"
+	"verif/harness/internal/execdrv"
 	"verif/harness/internal/vutil"
 )
 
@@ -276,6 +279,89 @@ func concurrent(amounts []*big.Int, rounds int) (ran int) {
 	return
 }
 
+// ------------------------------------------------------------------ the EVM end of the value path
+// A wrapped Ethereum transaction carrying value v is executed through the node's real executor path
+// (core.VerifExecuteBlock: BeforeExecute + Execute) against a contract that stores CALLVALUE in slot 0;
+// observed: the CALLVALUE the outer frame received and what the recipient was credited.
+
+var evmStopped bool
+
+var recorderRuntime = []byte{0x34, 0x60, 0x00, 0x55, 0x00} // CALLVALUE PUSH1 0 SSTORE STOP
+
+func initCode(rt []byte) []byte {
+	n := len(rt)
+	return append([]byte{0x61, byte(n >> 8), byte(n), 0x60, 0x0e, 0x60, 0x00, 0x39, 0x61, byte(n >> 8), byte(n), 0x60, 0x00, 0xf3}, rt...)
+}
+
+type evmWorld struct {
+	st     *account.AccountDB
+	height uint64
+	seq    uint64
+	src    string
+}
+
+func (w *evmWorld) deploy() (common.Address, bool) {
+	w.height++
+	w.seq++
+	cd, _ := json.Marshal(types.ContractData{GasLimit: "1000000", TransferValue: "0", AbiData: "0x" + hex.EncodeToString(initCode(recorderRuntime))})
+	tx := execdrv.NewTx(types.TransactionTypeContract, w.src, "", string(cd), "", w.seq, fmt.Sprintf("c18-deploy-%d", w.seq))
+	res := execdrv.Execute(w.st, w.height, []*types.Transaction{tx})
+	if !res.Ok(tx.Hash) || len(res.Receipts) != 1 {
+		return common.Address{}, false
+	}
+	return res.Receipts[0].ContractAddress, true
+}
+
+// send executes a wrapped Ethereum transaction with value v to the recorder and reports what arrived.
+func (w *evmWorld) send(to common.Address, v *big.Int, recipient string, p015 bool, src string) {
+	old := common.LocalChainConfig.Proposal015Block
+	if !p015 {
+		common.LocalChainConfig.Proposal015Block = 1 << 50
+	}
+	defer func() { common.LocalChainConfig.Proposal015Block = old }()
+	w.height++
+	w.seq++
+	sender := common.HexToAddress(w.src)
+	raw := eth_tx.NewTransaction(w.st.GetNonce(sender), to, v, 200000, big.NewInt(1000000000), nil)
+	tx := eth_tx.ConvertTx(raw, sender, []byte{0xc0})
+	tx.RequestId = w.seq
+	before := new(big.Int).Set(w.st.GetBalance(to))
+	ev := map[string]interface{}{"event": "EvmValue", "src": src, "n": numForm(v), "recipient": recipient, "p015": p015,
+		"panic": false, "ok": false, "out": numForm(nil), "credited": numForm(nil)}
+	var res *execdrv.Result
+	p, msg := codecutil.Try(func() { res = execdrv.Execute(w.st, w.height, []*types.Transaction{tx}) })
+	if p {
+		ev["panic"] = true
+		ev["msg"] = msg
+	} else if res.Ok(tx.Hash) {
+		ev["ok"] = true
+		ev["out"] = numForm(new(big.Int).SetBytes(w.st.GetData(to, make([]byte, 32))))
+		ev["credited"] = numForm(new(big.Int).Sub(w.st.GetBalance(to), before))
+	}
+	emit(ev)
+}
+
+// aliasEvents: the *big.Int a caller hands to the converters / the account state must still hold
+// its value afterwards, also after the result (or the stored balance) was worked on.
+func aliasEvents(st *account.AccountDB, v *big.Int, src string) {
+	one := big.NewInt(1)
+	check := func(fn string, f func(x *big.Int)) {
+		x := new(big.Int).Set(v)
+		p, _ := codecutil.Try(func() { f(x) })
+		emit(map[string]interface{}{"event": "Alias", "src": src, "fn": fn, "n": numForm(v), "panic": p, "after": numForm(x)})
+	}
+	check("FormatDecimalForERC20/18", func(x *big.Int) { y := utility.FormatDecimalForERC20(x, 18); y.Add(y, one) })
+	check("FormatDecimalForERC20/6", func(x *big.Int) { y := utility.FormatDecimalForERC20(x, 6); y.Add(y, one) })
+	check("FormatDecimalForRocket/18", func(x *big.Int) { y := utility.FormatDecimalForRocket(x, 18); y.Add(y, one) })
+	check("BigIntToStr", func(x *big.Int) { utility.BigIntToStr(x) })
+	if st != nil {
+		a := common.HexToAddress("0x00000000000000000000000000000000c18a11a5")
+		check("AccountDB.AddBalance", func(x *big.Int) { st.AddBalance(a, x); st.AddBalance(a, one) })
+		check("AccountDB.SetBalance", func(x *big.Int) { st.SetBalance(a, x); st.AddBalance(a, one); st.SubBalance(a, one) })
+		check("AccountDB.SubBalance", func(x *big.Int) { st.AddBalance(a, x); st.SubBalance(a, x) })
+	}
+}
+
 func randDigits(rng *rand.Rand, n int) []int {
 	d := make([]int, n)
 	switch rng.Intn(4) {
@@ -329,6 +415,8 @@ func main() {
 	casesPath := flag.String("cases", "", "JSON file: list of TLC-generated cases")
 	nRandom := flag.Int("random", 0, "number of seeded random amounts and literals")
 	salt := flag.Int64("salt", 0, "extra seed salt (shard number)")
+	evmN := flag.Int("evm", 0, "EVM end of the value path: number of seeded random amounts besides the TLC ones (0: off)")
+	scratch := flag.String("scratch", "", "scratch directory for the chain (needed with --evm)")
 	concRounds := flag.Int("conc", 0, "concurrency family: rounds (8 goroutines with different token decimals over the amounts)")
 	flag.Parse()
 	outAbs, _ := filepath.Abs(*out)
@@ -377,6 +465,47 @@ func main() {
 			raw += "." + digitsStr(randDigits(rng, 1+rng.Intn(18)))
 		}
 		doRaw("leadzero", raw, "random")
+	}
+	if *evmN > 0 {
+		if *scratch == "" {
+			vutil.Fatalf("--scratch required with --evm")
+		}
+		execdrv.Boot(*scratch)
+		w := &evmWorld{st: execdrv.FreshState(), src: execdrv.Funded[0]}
+		limit, _ := new(big.Int).SetString("400000000000000000000000000", 10) // what the funded sender can pay
+		var amounts []*big.Int
+		for _, c := range cases {
+			if c.Op == "num" && !c.Neg {
+				if n := bigOf(false, c.D); n.Cmp(limit) <= 0 {
+					amounts = append(amounts, n)
+				}
+			}
+		}
+		for i := 0; i < *evmN; i++ {
+			n := randAmount(rng)
+			n.Abs(n)
+			amounts = append(amounts, n.Mod(n, limit))
+		}
+		for i, v := range amounts {
+			for _, p015 := range []bool{true, false} {
+				c, ok := w.deploy()
+				if !ok {
+					// the world is no longer what the driver built (e.g. the sender's funds were spent by
+					// a wrong amount earlier): what was observed so far is in the trace, stop here
+					evmStopped = true
+					break
+				}
+				w.send(c, v, "fresh", p015, "evm")
+				w.send(c, v, "funded", p015, "evm") // the same recipient again: it now holds v
+				if i%4 == 0 {
+					w.send(c, new(big.Int).Add(v, big.NewInt(1)), "funded", p015, "evm")
+				}
+			}
+			if evmStopped {
+				break
+			}
+			aliasEvents(w.st, v, "evm")
+		}
 	}
 	concRan := 0
 	if *concRounds > 0 {
